@@ -501,32 +501,9 @@ func c13Narrowing(w *World, r *Report) {
 	sort.Strings(want)
 	r.Check(strings.Join(got, " ; ") == strings.Join(want, " ; "), "R13.4", "validateRangeBoundaries tests", vfd.Pos(), strings.Join(got, " ; "),
 		"rejecting comparisons are ["+strings.Join(got, " ; ")+"], expected ["+strings.Join(want, " ; ")+"] (end before start; starts not ascending; parts touching or overlapping)")
-	// createRangeBdry: start < base_min, end > base_max
-	crb := w.Method("compile", "Compiler", "createRangeBdry")
-	cfd, _ := w.FuncDecl(crb)
-	gotC := describe(cfd)
-	if os.Getenv("YV_DEBUG") != "" {
-		fmt.Println("DEBUG createRangeBdry:", strings.Join(gotC, "\n  "))
-	}
-	// locals are rendered by provenance: start = base minimum | parsed start; end = base maximum | parsed end
-	const pStart = "<<GetStart(0)>|Parse(<elem(parse.argRb)>.Start,0,64)#0>"
-	const pEnd = "<<GetEnd(Len()-1)>|Parse(<elem(parse.argRb)>.End,0,64)#0>"
-	// the base handed to Parse is R13.10's business, not this rule's
-	stripBase := func(s string) string { return c13ParseBaseRe.ReplaceAllString(s, ".$1)") }
-	for i := range gotC {
-		gotC[i] = stripBase(gotC[i])
-	}
-	need := []string{"LessThan(" + pStart + ",<GetStart(0)>)", "GreaterThan(" + pEnd + ",<GetEnd(Len()-1)>)", "LessThan(" + pStart + ",<<GetStart(<0>)>>)"}
-	for _, n := range need {
-		n = stripBase(n)
-		found := false
-		for _, g := range gotC {
-			if g == n {
-				found = true
-			}
-		}
-		r.Check(found, "R13.4", "createRangeBdry: "+n, cfd.Pos(), "⇒ error", "the narrowing test "+n+" no longer guards an error exit: a derived range that is not a subset of its base is accepted")
-	}
+	// createRangeBdry: start < base_min, end > base_max, start < rangeMin of the sub-range scan
+	cfd, _ := w.FuncDecl(w.Method("compile", "Compiler", "createRangeBdry"))
+	c13RangeNarrowing(w, r, cfd.Pos())
 	// getLength
 	gl := w.Method("compile", "Compiler", "getLength")
 	gfd, _ := w.FuncDecl(gl)
@@ -698,4 +675,196 @@ func normCondIn(p *packagesPackage, fd *ast.FuncDecl, e ast.Expr) string {
 		}
 	}
 	return f(e, 0)
+}
+
+// c13RangeNarrowing (R13.4, createRangeBdry): three comparisons of the range
+// interface guard an error exit, identified by where their operands come from
+// rather than by how the locals are called or where the test stands (the
+// function itself or a helper only it uses):
+//   LessThan(parsed start, base minimum)            = GetStart(0)
+//   GreaterThan(parsed end, base maximum)           = GetEnd(Len()-1)
+//   LessThan(start, minimum of the current sub-range run) = GetStart(index)
+func c13RangeNarrowing(w *World, r *Report, pos token.Pos) {
+	root := w.SSAFunc(w.Method("compile", "Compiler", "createRangeBdry"))
+	cerr := w.Method("compile", "Compiler", "error")
+	if root == nil {
+		panic(undecided{"Compiler.createRangeBdry"})
+	}
+	sp := w.SSAPkg("compile")
+	var cone []*ssa.Function
+	for _, g := range allFuncs(sp) {
+		if !isTestFile(w, g.Pos()) && w.OwnedBy(g, root) {
+			cone = append(cone, g)
+		}
+	}
+	// where a value comes from
+	sources := func(v ssa.Value) map[string]bool {
+		out := map[string]bool{}
+		seen := map[ssa.Value]bool{}
+		var walk func(v ssa.Value, d int)
+		walk = func(v ssa.Value, d int) {
+			if v == nil || seen[v] || d > 30 {
+				return
+			}
+			seen[v] = true
+			switch x := v.(type) {
+			case *ssa.Call:
+				cc := x.Common()
+				name := ""
+				if cc.IsInvoke() {
+					name = cc.Method.Name()
+				} else if f := cc.StaticCallee(); f != nil {
+					name = f.Name()
+				}
+				switch name {
+				case "Parse":
+					// which field of the parsed boundary
+					if len(cc.Args) > 0 {
+						if fl, ok := cc.Args[0].(*ssa.Field); ok {
+							st := fl.X.Type().Underlying().(*types.Struct)
+							out["Parse(."+st.Field(fl.Field).Name()+")"] = true
+							return
+						}
+						if ld, ok := cc.Args[0].(*ssa.UnOp); ok {
+							if fa, ok := ld.X.(*ssa.FieldAddr); ok {
+								st := fa.X.Type().Underlying().(*types.Pointer).Elem().Underlying().(*types.Struct)
+								out["Parse(."+st.Field(fa.Field).Name()+")"] = true
+								return
+							}
+						}
+					}
+					out["Parse(?)"] = true
+					return
+				case "GetStart", "GetEnd":
+					arg := "i"
+					if len(cc.Args) > 0 {
+						if k, ok := intConstOf(cc.Args[0]); ok {
+							arg = fmt.Sprint(k)
+						} else if bo, ok := cc.Args[0].(*ssa.BinOp); ok && bo.Op == token.SUB {
+							if one, ok := intConstOf(bo.Y); ok && one == 1 {
+								if lc, ok := bo.X.(*ssa.Call); ok && lc.Call.IsInvoke() && lc.Call.Method.Name() == "Len" {
+									arg = "Len()-1"
+								}
+							}
+						}
+					}
+					out[name+"("+arg+")"] = true
+					return
+				}
+				// some other call: what it was given
+				for _, a := range cc.Args {
+					walk(a, d+1)
+				}
+				return
+			case *ssa.Parameter:
+				fn := x.Parent()
+				if fn == root {
+					return
+				}
+				idx := -1
+				for i, p := range fn.Params {
+					if p == x {
+						idx = i
+					}
+				}
+				for _, g := range cone {
+					for _, b := range g.Blocks {
+						for _, in := range b.Instrs {
+							if c, ok := in.(ssa.CallInstruction); ok && c.Common().StaticCallee() == fn && idx >= 0 && idx < len(c.Common().Args) {
+								walk(c.Common().Args[idx], d+1)
+							}
+						}
+					}
+				}
+				return
+			case *ssa.Alloc:
+				for _, ref := range *x.Referrers() {
+					if st, ok := ref.(*ssa.Store); ok && st.Addr == ssa.Value(x) {
+						walk(st.Val, d+1)
+					}
+				}
+				return
+			case *ssa.Const, *ssa.Global, *ssa.Function, *ssa.FreeVar:
+				return
+			}
+			if in, ok := v.(ssa.Instruction); ok {
+				for _, op := range in.Operands(nil) {
+					if *op != nil {
+						walk(*op, d+1)
+					}
+				}
+			}
+		}
+		walk(v, 0)
+		return out
+	}
+	type test struct{ meth, left, right string }
+	found := map[test]bool{}
+	for _, g := range cone {
+		for _, b := range g.Blocks {
+			for _, in := range b.Instrs {
+				c, ok := in.(*ssa.Call)
+				if !ok || !c.Call.IsInvoke() || (c.Call.Method.Name() != "LessThan" && c.Call.Method.Name() != "GreaterThan") || len(c.Call.Args) != 2 {
+					continue
+				}
+				// does the true outcome lead to an error exit?
+				guards := false
+				for _, ref := range *c.Referrers() {
+					var ifi *ssa.If
+					neg := false
+					switch x := ref.(type) {
+					case *ssa.If:
+						ifi = x
+					case *ssa.UnOp:
+						if x.Op == token.NOT {
+							for _, r2 := range *x.Referrers() {
+								if y, ok := r2.(*ssa.If); ok {
+									ifi, neg = y, true
+								}
+							}
+						}
+					}
+					if ifi == nil {
+						continue
+					}
+					succ := ifi.Block().Succs[0]
+					if neg {
+						succ = ifi.Block().Succs[1]
+					}
+					if len(succ.Preds) != 1 {
+						continue
+					}
+					for _, eb := range g.Blocks {
+						if !succ.Dominates(eb) {
+							continue
+						}
+						for _, in2 := range eb.Instrs {
+							if ec, ok := in2.(ssa.CallInstruction); ok && ec.Common().StaticCallee() != nil && ec.Common().StaticCallee().Object() == types.Object(cerr) {
+								guards = true
+							}
+						}
+					}
+				}
+				if !guards {
+					continue
+				}
+				ls, rs := sources(c.Call.Args[0]), sources(c.Call.Args[1])
+				for l := range ls {
+					for rr := range rs {
+						found[test{c.Call.Method.Name(), l, rr}] = true
+					}
+				}
+			}
+		}
+	}
+	for _, t := range []struct {
+		t    test
+		what string
+	}{
+		{test{"LessThan", "Parse(.Start)", "GetStart(0)"}, "LessThan(parsed start, base minimum)"},
+		{test{"GreaterThan", "Parse(.End)", "GetEnd(Len()-1)"}, "GreaterThan(parsed end, base maximum)"},
+		{test{"LessThan", "Parse(.Start)", "GetStart(i)"}, "LessThan(start, minimum of the current run of base sub-ranges)"},
+	} {
+		r.Check(found[t.t], "R13.4", "createRangeBdry: "+t.what, pos, "⇒ error", "the narrowing test "+t.what+" no longer guards an error exit: a derived range that is not a subset of its base is accepted")
+	}
 }
